@@ -277,6 +277,11 @@ impl FeeRateManager {
         *old(self) matches FeeRateManager::Adaptive { adaptive_fee_constants, .. } ==> adaptive_fee_constants.major_swap_threshold_ticks as int <= 443636,
     ensures *old(self) is Static ==> r is Ok && *final(self) == *old(self),
         final(self).wf(),
+        // the major-swap timestamp is set exactly when the price moved by the configured threshold; nothing else changes
+        *old(self) matches FeeRateManager::Adaptive { a_to_b, tick_group_index, static_fee_rate, adaptive_fee_constants, adaptive_fee_variables, core_tick_group_range_lower_bound, core_tick_group_range_upper_bound } ==> (
+            r is Ok ==> *final(self) == (FeeRateManager::Adaptive { a_to_b, tick_group_index, static_fee_rate, adaptive_fee_constants, core_tick_group_range_lower_bound, core_tick_group_range_upper_bound,
+                adaptive_fee_variables: AdaptiveFeeVariables { last_major_swap_timestamp:
+                    if major_swap_spec(pre_sqrt_price as int, post_sqrt_price as int, adaptive_fee_constants.major_swap_threshold_ticks as int) { timestamp } else { adaptive_fee_variables.last_major_swap_timestamp }, ..adaptive_fee_variables } })),
 //@ end
 }
 }
